@@ -32,6 +32,8 @@ pub struct InstanceState {
     most_recent_disposed_generation_count: i32,
     most_recent_no_writers_generation_count: i32,
     last_received_time_stamp: Time,
+    // Writers that have written the instance and not unregistered it
+    registered_writers: Vec<[u8; 16]>,
 }
 
 impl InstanceState {
@@ -43,7 +45,37 @@ impl InstanceState {
             most_recent_disposed_generation_count: 0,
             most_recent_no_writers_generation_count: 0,
             last_received_time_stamp: Time::new(TIME_INVALID_SEC, TIME_INVALID_NSEC),
+            registered_writers: Vec::new(),
         }
+    }
+
+    /// Update the state for a change received from the given writer. The instance only becomes
+    /// NOT_ALIVE_NO_WRITERS once every writer that has written it has unregistered it.
+    pub fn update_state_from_writer(
+        &mut self,
+        change_kind: ChangeKind,
+        writer_guid: [u8; 16],
+        now: Option<Time>,
+    ) {
+        match change_kind {
+            ChangeKind::Alive | ChangeKind::AliveFiltered => {
+                if !self.registered_writers.contains(&writer_guid) {
+                    self.registered_writers.push(writer_guid);
+                }
+            }
+            ChangeKind::NotAliveUnregistered | ChangeKind::NotAliveDisposedUnregistered => {
+                self.registered_writers.retain(|w| w != &writer_guid);
+            }
+            ChangeKind::NotAliveDisposed => (),
+        }
+        if change_kind == ChangeKind::NotAliveUnregistered && !self.registered_writers.is_empty() {
+            // Other writers are still registered: the instance state does not change
+            if let Some(t) = now {
+                self.last_received_time_stamp = t;
+            }
+            return;
+        }
+        self.update_state(change_kind, now)
     }
 
     pub fn update_state(&mut self, change_kind: ChangeKind, now: Option<Time>) {
@@ -319,10 +351,18 @@ impl<T> DataReaderEntity<T> {
                     .iter_mut()
                     .find(|x| x.handle() == &instance_handle)
                 {
-                    Some(x) => x.update_state(change_kind, Some(reception_timestamp)),
+                    Some(x) => x.update_state_from_writer(
+                        change_kind,
+                        writer_guid.into(),
+                        Some(reception_timestamp),
+                    ),
                     None => {
                         let mut s = InstanceState::new(instance_handle);
-                        s.update_state(change_kind, Some(reception_timestamp));
+                        s.update_state_from_writer(
+                            change_kind,
+                            writer_guid.into(),
+                            Some(reception_timestamp),
+                        );
                         self.instances.push(s);
                     }
                 }
@@ -337,7 +377,11 @@ impl<T> DataReaderEntity<T> {
                     .find(|x| x.handle() == &instance_handle)
                 {
                     Some(instance) => {
-                        instance.update_state(change_kind, Some(reception_timestamp));
+                        instance.update_state_from_writer(
+                            change_kind,
+                            writer_guid.into(),
+                            Some(reception_timestamp),
+                        );
                         Ok(())
                     }
                     None => Err(DdsError::Error(
@@ -527,10 +571,18 @@ impl<T> DataReaderEntity<T> {
                     .iter_mut()
                     .find(|x| x.handle() == &sample.instance_handle)
                 {
-                    Some(x) => x.update_state(sample.kind, Some(reception_timestamp)),
+                    Some(x) => x.update_state_from_writer(
+                        sample.kind,
+                        sample.writer_guid,
+                        Some(reception_timestamp),
+                    ),
                     None => {
                         let mut s = InstanceState::new(sample.instance_handle);
-                        s.update_state(sample.kind, Some(reception_timestamp));
+                        s.update_state_from_writer(
+                            sample.kind,
+                            sample.writer_guid,
+                            Some(reception_timestamp),
+                        );
                         self.instances.push(s);
                     }
                 }
@@ -545,7 +597,11 @@ impl<T> DataReaderEntity<T> {
                     .find(|x| x.handle() == &sample.instance_handle)
                 {
                     Some(instance) => {
-                        instance.update_state(sample.kind, Some(reception_timestamp));
+                        instance.update_state_from_writer(
+                            sample.kind,
+                            sample.writer_guid,
+                            Some(reception_timestamp),
+                        );
                         Ok(())
                     }
                     None => Err(DdsError::Error(
